@@ -54,9 +54,19 @@ def godefaultsLine (rest : String) : IO String := do
     | none => return "unknown-schemas"
     | some ss =>
       if obj == "*" then
-        match goPkgCompiles 24 ss pkg with
+        -- every constructor of the package, each at the first sufficient fuel
+        match Schemas.locate ss pkg with
         | none => return "ok"
-        | some (o, w) => return "cerr " ++ o ++ ": " ++ w
+        | some s =>
+          let bad := s.objects.findSome? fun (kv : String × Obj) =>
+            if kv.2.ty.isStruct then
+              match goDefaultsAuto ss pkg kv.1 with
+              | .cerr w => some (kv.1, w)
+              | _ => none
+            else none
+          match bad with
+          | none => return "ok"
+          | some (o, w) => return "cerr " ++ o ++ ": " ++ w
       else return showCRes (goDefaultsAuto ss pkg obj)
   | [id, pkg, obj, "fits"] =>
     match ← getSchemas id with
